@@ -671,23 +671,18 @@ def run_catalogue(chk, tier, seed):
 WITNESSES = [
     # (theorem, section, spec, the oracle key the witness must produce — None: the call must produce NO finding —,
     #  must the call return?)
-    # open findings (fix patches C18-01 / C18-03 prepared): the calls raise and leave the array changed
+    # fixed by C18-01 / C18-03: the calls still raise, and must leave the array untouched
     ("failed_convert_to_units_has_no_effects / convert_to_units_unpatched_violates", "conv",
-     dict(route="convert_to_units", unit="km", target="m", dtype="int8", shape="1d", ro=False, fault="valid"),
-     "inplace|convert_to_units|narrow-int-dtype|int8|raised-ValueError|unit", False),
+     dict(route="convert_to_units", unit="km", target="m", dtype="int8", shape="1d", ro=False, fault="valid"), None, False),
     ("failed_convert_to_units_has_no_effects / convert_to_units_unpatched_late_faults", "conv",
-     dict(route="convert_to_units", unit="km", target="m", dtype="bool", shape="1d", ro=False, fault="valid"),
-     "inplace|convert_to_units|bool-dtype|bool|raised-TypeError|unit", False),
+     dict(route="convert_to_units", unit="km", target="m", dtype="bool", shape="1d", ro=False, fault="valid"), None, False),
     ("failed_convert_to_units_has_no_effects / convert_to_units_unpatched_late_faults", "conv",
-     dict(route="convert_to_units", unit="km", target="m", dtype="float64", shape="1d", ro=True, fault="readonly"),
-     "inplace|convert_to_units|readonly|float|raised-ValueError|unit", False),
+     dict(route="convert_to_units", unit="km", target="m", dtype="float64", shape="1d", ro=True, fault="readonly"), None, False),
     ("failed_convert_to_units_has_no_effects / convert_to_units_unpatched_late_faults", "conv",
-     dict(route="convert_to_units", unit="km", target="m", dtype="int64", shape="1d", ro=True, fault="readonly"),
-     "inplace|convert_to_units|readonly|int|raised-ValueError|dtype+numbers+unit", False),
-    # open finding (fix patch C18-02 prepared)
+     dict(route="convert_to_units", unit="km", target="m", dtype="int64", shape="1d", ro=True, fault="readonly"), None, False),
+    # fixed by C18-02
     ("simplify_copy_has_no_effects / simplify_unpatched_mutates", "conv",
-     dict(route="units.simplify", unit="cm/m", target="m", dtype="float64", shape="1d", ro=False, fault="valid"),
-     "documented-copying|Unit.simplify|mutates-self", True),
+     dict(route="units.simplify", unit="cm/m", target="m", dtype="float64", shape="1d", ro=False, fault="valid"), None, True),
     # fixed by db741b8 (post-multiplication on the raw buffer)
     ("convert_to_equivalent_raw_returns", "conv",
      dict(route="convert_to_equivalent", unit="K*cm/angstrom", target="J", equivalence="thermal", kwargs={}, dtype="float64",
